@@ -18,6 +18,7 @@ import (
 	"crypto"
 	"crypto/ecdsa"
 	"crypto/ed25519"
+	"crypto/elliptic"
 	"crypto/rand"
 	"crypto/rsa"
 	"errors"
@@ -48,7 +49,7 @@ func SignPrivateKey(digest []byte, algorithm string, key jwk.Key) (signature []b
 		return signPrivateKeyRSAPSS(digest, getSHAHash(algorithm), key)
 
 	case Algorithm_ES256, Algorithm_ES384, Algorithm_ES512:
-		return signPrivateKeyECDSA(digest, key)
+		return signPrivateKeyECDSA(digest, getECDSACurve(algorithm), key)
 
 	case Algorithm_EdDSA:
 		return signPrivateKeyEdDSA(digest, key)
@@ -74,13 +75,26 @@ func signPrivateKeyRSAPSS(digest []byte, hash crypto.Hash, key jwk.Key) ([]byte,
 	return rsa.SignPSS(rand.Reader, rsaKey, hash, digest, nil)
 }
 
-func signPrivateKeyECDSA(digest []byte, key jwk.Key) ([]byte, error) {
+func signPrivateKeyECDSA(digest []byte, curve elliptic.Curve, key jwk.Key) ([]byte, error) {
 	ecdsaKey := &ecdsa.PrivateKey{}
-	if key.Raw(ecdsaKey) != nil {
+	if key.Raw(ecdsaKey) != nil || ecdsaKey.Curve != curve {
 		return nil, ErrKeyTypeMismatch
 	}
 
 	return ecdsa.SignASN1(rand.Reader, ecdsaKey, digest)
+}
+
+// getECDSACurve returns the curve that an ECDSA signature algorithm is defined for.
+func getECDSACurve(alg string) elliptic.Curve {
+	switch alg {
+	case Algorithm_ES256:
+		return elliptic.P256()
+	case Algorithm_ES384:
+		return elliptic.P384()
+	case Algorithm_ES512:
+		return elliptic.P521()
+	}
+	return nil
 }
 
 func signPrivateKeyEdDSA(message []byte, key jwk.Key) ([]byte, error) {
@@ -122,7 +136,7 @@ func VerifyPublicKey(digest []byte, signature []byte, algorithm string, key jwk.
 		return verifyPublicKeyRSAPSS(digest, signature, getSHAHash(algorithm), key)
 
 	case Algorithm_ES256, Algorithm_ES384, Algorithm_ES512:
-		return verifyPublicKeyECDSA(digest, signature, key)
+		return verifyPublicKeyECDSA(digest, signature, getECDSACurve(algorithm), key)
 
 	case Algorithm_EdDSA:
 		return verifyPublicKeyEdDSA(digest, signature, key)
@@ -162,9 +176,9 @@ func verifyPublicKeyRSAPSS(digest []byte, signature []byte, hash crypto.Hash, ke
 	return true, nil
 }
 
-func verifyPublicKeyECDSA(digest []byte, signature []byte, key jwk.Key) (bool, error) {
+func verifyPublicKeyECDSA(digest []byte, signature []byte, curve elliptic.Curve, key jwk.Key) (bool, error) {
 	ecdsaKey := &ecdsa.PublicKey{}
-	if key.Raw(ecdsaKey) != nil {
+	if key.Raw(ecdsaKey) != nil || ecdsaKey.Curve != curve {
 		return false, ErrKeyTypeMismatch
 	}
 
